@@ -2,7 +2,7 @@
    tied to the source by the correspondence check of checks/c08.py on a full client.
    Phase 2: the model is the REPAIRED code (fixes F04 F05 F06 F27). *)
 From Slsk Require Import Base.Tac.
-From SlskGen Require Import CharTable.
+From SlskGen Require Import CharTable SharesGen.
 From Slsk Require Import C07.Model C07.Proofs C08.Model C08.Proofs.
 
 (* After EVERY sequence of share operations: whatever a query lists as a normal result for a user is held by a listed
@@ -24,6 +24,22 @@ Theorem C08_excluded_phrases : forall ops c user qs x ph,
   In ph (phrases c) -> substring (lower_s ph) (lower_s (qpath x)) = false.
 Proof. intros ops. apply excluded_phrases. Qed.
 
+(* PeerSharesReply: a file is listed in the normal part only when the directory holding it permits the asking user, in the
+   locked part only when it locks the user, and every held file is listed in one of them *)
+Theorem C08_shares_reply_entitled : forall s c user,
+  (forall x, In x (shares_visible s c user) -> exists d, In d (listed s) /\ In x (ditems d) /\ dir_locked (friends c) d user = false) /\
+  (forall x, In x (shares_locked s c user) -> exists d, In d (listed s) /\ In x (ditems d) /\ dir_locked (friends c) d user = true) /\
+  (forall d x, In d (listed s) -> In x (ditems d) -> In x (shares_visible s c user) \/ In x (shares_locked s c user)).
+Proof.
+  intros s c0 user. split; [apply shares_visible_entitled|]. split; [apply shares_locked_locked | apply shares_complete].
+Qed.
+
+(* PeerDirectoryContentsReply does NOT have this property (finding F28, kept known): the files of a friends-only directory are
+   listed to a user who is not a friend *)
+Theorem C08_directory_reply_refuted : exists ops c user rd x d,
+  In x (directory_reply (run ops) rd) /\ In d (listed (run ops)) /\ In x (ditems d) /\ dir_locked (friends c) d user = true.
+Proof. exact directory_reply_refuted. Qed.
+
 (* no search reply goes to a user blocked for searches (or without a session) *)
 Theorem C08_search_block : forall s c user qs,
   mem_str user (blocked_searches c) = true \/ has_session c = false -> search_reply s c user qs = None.
@@ -41,7 +57,7 @@ Proof. intros s c ts user rp H. split; [apply queue_refused | apply request_refu
 
 (* conversely an upload is created only for a user who is not blocked and an item that a listed directory holds and
    that is unlocked for the user (through the item's pointer, which by C07_owner_pointer is the holder) *)
-Theorem C08_upload_created_only_if_entitled : forall s c ts user rp,
+Theorem C08_upload_created_only_if_entitled : forall s c ts user rp, user <> [] ->
   length (fst (on_transfer_queue s c ts user rp)) > length ts \/ length (fst (on_transfer_request s c ts user rp)) > length ts ->
   mem_str user (blocked_uploads c) = false /\
   exists x, lookup_item s c user rp = Found x /\ entitled s c user x = true /\ exists d, In d (listed s) /\ In x (ditems d).
